@@ -139,6 +139,20 @@ def translate(src: Path) -> dict:
     out.append("(* pinned literally: NumberDuplicateStrategy (PATTERN ' \\((\\d+)\\)', prefix re.match, lowest gap above the smallest index,\n"
                "   f'{filename} ({next_index}){extension}'), DuplicateNamingStrategy.should_be_applied (os.path.exists of the join), chain_strategies *)\n\n")
 
+    # ---- what `\d` matches and int() converts in a str pattern: the Unicode decimal digits of THIS interpreter
+    import sys
+    import unicodedata
+    zeros = [c for c in range(sys.maxunicode + 1) if unicodedata.category(chr(c)) == 'Nd' and unicodedata.digit(chr(c), -1) == 0]
+    for z in zeros:
+        if any(unicodedata.category(chr(z + k)) != 'Nd' or unicodedata.digit(chr(z + k), -1) != k for k in range(10)):
+            raise Refuse(f'decimal digits at U+{z:04X} are not a block of ten consecutive code points')
+    nd = sum(1 for c in range(sys.maxunicode + 1) if unicodedata.category(chr(c)) == 'Nd')
+    if nd != 10 * len(zeros) or 48 not in zeros:
+        raise Refuse('Unicode decimal digits are not exactly the blocks found')
+    out.append(f'(* code points of the digit ZERO of every Unicode decimal-digit block (category Nd, unicodedata {unicodedata.unidata_version}):\n'
+               '   \\d in a str pattern matches z .. z+9 and int() reads them as 0 .. 9 *)\n'
+               f'Definition DIGIT_ZEROS : list N := [{"; ".join(str(z) for z in zeros)}]%N.\n\n')
+
     # ---- default chain and calculate_download_path
     stree = ast.parse((src / 'aioslsk' / 'shares' / 'manager.py').read_text())
     smc = find_class(stree, 'SharesManager')
